@@ -35,6 +35,7 @@ OBLIGATIONS = [
     "Grog.C08.read_through",
     "Grog.C08.get_never_invents",
     "Grog.C08.failed_get_unchanged",
+    "Grog.C08.same_namespace_iff",
 ]
 ASSUMPTIONS = [
     "the remote store never loses an object and a successful put is atomic (S3 PutObject / finalised GCS writer)",
@@ -232,6 +233,7 @@ def run(ctx):
                             "machines A,B,C: build with remote cache, build without remote cache (local-only blobs), restore into an emptied workspace; remote faults "
                             "scripted per step on get/set/exists (err, err-mid, err-late = read everything then fail, err-after = stored then fail); workloads of 1-3 "
                             "targets sharing contents; non-trivial = distinct history in which some machine restored outputs successfully and the remote stayed closed")
+    namespaces(ctx, stats)
     ctx.coverage["distribution"] = stats
     ctx.coverage["rejected_traces"] = len(rejected)
     ctx.coverage["final_state_differences"] = len(diffs)
@@ -246,6 +248,55 @@ def run(ctx):
                       {"kind": "correspondence", "correspondence": "wrapper-call traces of Cas/TargetResultCache over RemoteWrapper vs GrogModel.Remote.step",
                        "request": req, "family": fam, "model": y, "rejected_event": rr["events"][at] if 0 <= at < len(rr["events"]) else None,
                        "events": rr["events"], "n_rejected": len(rejected), "n_state_diffs": len(diffs)}, found_input=False)
+
+
+def namespaces(ctx, stats):
+    """remote object keys: real S3Cache (recording client) vs RemotePath.objectOf; same-namespace oracle on the real keys"""
+    import hashlib as hl
+    buckets = ["b1", "b2"]
+    prefixes = ["", "/", "p", "/p/", "p/q", "p//", "//p/q//", "q", "///"]
+    roots = ["/w/a", "/w/b", "/x/a", "/w/a b", "/w/" + S.proto("ü")]
+    calls = [["cas", "abc"], ["target", "k1_k2"], ["/cas/", "/abc/"], ["taint", "//pkg:t"], ["cas", ""], ["", "x"]]
+    cfgs = [(b, p, r) for b in buckets for p in prefixes for r in roots]
+    if ctx.tier == "quick":
+        cfgs = ctx.rng.sample(cfgs, 40)
+    reqs = [{"op": "store.s3path", "bucket": b, "prefix": p, "root": r, "calls": calls} for b, p, r in cfgs]
+    outs = S.impl(ctx, reqs)
+    if outs is None:
+        return
+    mreqs = []
+    for (b, p, r), x in zip(cfgs, outs):
+        raw = S.unproto(r).encode()
+        want_ws = hl.sha256(raw).hexdigest()[:16] + "-" + S.unproto(r).rsplit("/", 1)[1]
+        if S.unproto(x.get("ws", "")) != want_ws:
+            ctx.violation("workspace identity differs from sha256(root)[:16]-basename", {"kind": "correspondence", "correspondence": "GetWorkspaceCachePrefix",
+                          "root": r, "impl": x.get("ws"), "expected": want_ws}, found_input=False)
+        mreqs.append({"op": "store.objpath", "bucket": b, "prefix": p, "ws": x.get("ws", ""), "calls": calls})
+    mouts = S.model(ctx, mreqs)
+    bad = 0
+    for cfg, x, y in zip(cfgs, outs, mouts):
+        if x.get("objects") != y.get("objects"):
+            bad += 1
+            if bad == 1:
+                ctx.violation("remote object keys differ between S3Cache and the model", {"kind": "correspondence", "correspondence": "S3Cache.buildPath vs RemotePath.objectOf",
+                              "config": cfg, "impl": x, "model": y}, found_input=False)
+    pairs = same = 0
+    for i in range(len(cfgs)):
+        for j in range(i + 1, len(cfgs)):
+            (b1, p1, r1), (b2, p2, r2) = cfgs[i], cfgs[j]
+            expect = b1 == b2 and p1.strip("/") == p2.strip("/") and r1 == r2
+            got = outs[i].get("objects") == outs[j].get("objects")
+            pairs += 1
+            same += 1 if got else 0
+            if expect != got:
+                ctx.violation("two configurations %s the same remote objects although bucket/trimmed prefix/workspace identity %s" %
+                              (("address" if got else "do not address"), ("differ" if got else "agree")),
+                              {"kind": "oracle", "oracle": "same namespace iff same (bucket, trimmed prefix, workspace identity)", "c1": cfgs[i], "c2": cfgs[j],
+                               "objects1": outs[i].get("objects"), "objects2": outs[j].get("objects")}, signature="namespace-" + ("collision" if got else "split"))
+    stats["namespace_configs"] = len(cfgs)
+    stats["namespace_pairs"] = pairs
+    stats["namespace_pairs_same"] = same
+    ctx.coverage["evaluations"] += len(cfgs)
 
 
 def replay(ctx, rep):
